@@ -83,6 +83,9 @@ def affine_class(skel: dict, js: list[int]) -> bool:
 CLASS_POINTS = {16: [8, 10, 12], 32: [16, 20, 24], 64: [32, 48, 62]}
 
 
+ODD = ["", " [2]", "", "{a,b}", "", "*"]
+
+
 class C16(Check):
     PROP = "C16"
     CRASH_ORACLE = "C16.constant"
@@ -244,7 +247,8 @@ class C16(Check):
                     logging.disable(old_state[0])
 
         def measure0(ws: dict, jumps) -> tuple[dict, object]:
-            w = World({"ws": ws})
+            # everything about the host that is not the capacity is held fixed across the capacity schedule (cost is compared)
+            w = World({"ws": ws, "debug_logging": False, "warnings_as_errors": bool(scn.get("r", 0) % 3 == 0), "odd_dir": ODD[scn.get("r", 0) % len(ODD)], "mtime": "advance"})
             clock.install()
             clock.reset()
             for k in counts:
